@@ -393,6 +393,26 @@ def _special_case(args):
                                 f"internal basins {detail}",
                                 {"which": which, "feat": feat}))
                             break
+        elif which == "foreign-unidentified-basin":
+            # next to the (mapped) origin basin, a hand-made definition
+            # points at a foreign file that carries no identifier at all
+            # and other values: the features still come from the origin
+            foreign = d / "a" / "foreign.rtdc"
+            evf = {k: (np.asarray(v) + 0.5 if k in ("deform", "bright_avg")
+                       else v) for k, v in ev.items() if k in (
+                       "deform", "bright_avg", "index_online")}
+            gen.write_rtdc(foreign, evf, meta=gen.complete_meta(N0, fl=False))
+            with h5py.File(foreign, "a") as h5:
+                for k in ("experiment:run identifier", "experiment:date",
+                          "experiment:time", "setup:identifier"):
+                    if k in h5.attrs:
+                        del h5.attrs[k]
+            with RTDCWriter(ref, mode="append") as hw:
+                hw.store_basin("bogus", "file", "hdf5", [str(foreign)],
+                               verify=False)
+            out.extend(check_referrer(ref, ev, cmap, case, {"which": which},
+                                      feats=["deform", "bright_avg",
+                                             "area_um"], full=False))
         elif which == "origin-removed":
             origin.unlink()
             with dclab.new_dataset(ref) as ds:
@@ -499,7 +519,8 @@ def run(ctx):
                                 for bt in ("file", "internal")])
     res3 = par.pmap(_special_case, [(w, ctx.seed, scratch) for w in (
         "moved-together", "origin-removed", "stored-wins",
-        "mapped-chunk-cross", "similar-maps", "several-internal-basins")])
+        "mapped-chunk-cross", "similar-maps", "several-internal-basins",
+        "foreign-unidentified-basin")])
     viols = []
     nfiles = 0
     for n, vs in res + res2 + res3:
